@@ -164,6 +164,8 @@ def run(ck):
     sp_t = ["ts", "ds", "nz", "ns", "is", "ta", "tm", "t32", "tl", "nza", "na", "tq", "tqa"]
     seq_q = ["lzq", "lbq", "lqb", "tlqm", "lqm3"]  # sequences mixing bare numbers and quantities, tuples, 3-element mixed list
     seq_t = ["lzq", "lbq", "lqb", "tlq", "tlqm", "lqm3"]
+    shp_q = ["e0", "e02", "a1", "q0a", "be"]  # size / shape classes: empty (0,), (0,2), size-1, 0-d array, bare empty
+    shp_t = ["e0", "e02", "e20", "a1", "q0a", "be", "bel"]
     k0_q = ["q", "a", "az", "bs", "za", "lq"]
     k1_q = ["q", "a", "az", "bs", "ba", "z", "lq", "lqm"]
     kall = ["q", "a", "az", "c", "bs", "ba", "bl", "z", "za", "zl", "lq", "lqm"]
@@ -180,8 +182,8 @@ def run(ck):
     consts = {
         "Units": _set(units),
         "ConvUnits": _set(units + ["C", "statC"]),
-        "UKinds0": _set(ck.q(k0_q + sp_q + seq_q, kall + sp_t + seq_t)),
-        "UKinds1": _set(ck.q(k1_q + sp_q + seq_q, kall + sp_t + seq_t)),
+        "UKinds0": _set(ck.q(k0_q + sp_q + seq_q + shp_q, kall + sp_t + seq_t + shp_t)),
+        "UKinds1": _set(ck.q(k1_q + sp_q + seq_q + shp_q, kall + sp_t + seq_t + shp_t)),
         "SpUnits": _set(ck.q(["la", "K"], units_t)),
         "Hists": _set(["modify", "readd", "tworeg"]),
         "HUnits": _set(ck.q(["la", "lb", "ta"], ["la", "lb", "ta", "ma", "nq"])),
